@@ -249,6 +249,10 @@ func (g *genCtx) genTy(t *Ty, d int) *Exp {
 		return nil
 	}
 	acct := g.pick(func(a acc) bool { return a.Ty.K == "Acct" })
+	if t.K == "Ref" {
+		// from here on a reference may be alive somewhere (variable, struct field, array element)
+		*g.hasRefs = true
+	}
 	switch t.K {
 	case "Int":
 		return g.genInt(d)
